@@ -371,5 +371,5 @@ pub fn begin() {
 
 /// Has any oracle recorded a violation so far? (lets the workload stop early)
 pub fn violated() -> bool {
-    simkit::ctx::soft_count() > 0
+    simkit::ctx::soft_count_own() > 0
 }
